@@ -50,6 +50,18 @@ func genC11(r *rt.Rand, tier string, idx int) *world.Scenario {
 	nc := 1 + r.Intn(3)
 	vn := 0
 	val := func() string { vn++; return fmt.Sprintf("v%d", vn) }
+	// guards: some compare-and-swaps rewrite the value they expect. A value then no longer identifies one
+	// version, and "value-equal or version-equal" compare-and-delete through an iterator may legitimately
+	// differ between engines: such runs issue no compare-and-delete.
+	guards := idx%7 == 3
+	if guards {
+		// few keys and at least two clients, so that a guarded key is often rewritten while a batch is open
+		sc.Class += "+guard-cas"
+		keyPool = keyPool[:3]
+		if nc < 2 {
+			nc = 2
+		}
+	}
 	// values a client believes are current (for CAS expectations that sometimes hold)
 	last := map[string]string{}
 	for c := 0; c < nc; c++ {
@@ -80,12 +92,15 @@ func genC11(r *rt.Rand, tier string, idx int) *world.Scenario {
 							old = fmt.Sprintf("v%d", 1+r.Intn(vn+1))
 						}
 						v := val()
+						if guards && r.Chance(0.6) {
+							v = old // a guard: the compare-and-swap rewrites the value it expects
+						}
 						parts = append(parts, "cas:"+bk+"="+v+"/"+old)
 						last[bk] = v
 					case 3:
 						parts = append(parts, "del:"+bk)
 					case 4:
-						if len(open) > 0 {
+						if len(open) > 0 && !guards {
 							parts = append(parts, fmt.Sprintf("delcur:%d", open[r.Intn(len(open))]))
 						} else {
 							parts = append(parts, "put:"+bk+"="+val())
@@ -93,7 +108,7 @@ func genC11(r *rt.Rand, tier string, idx int) *world.Scenario {
 					}
 				}
 				split := int64(0)
-				if r.Chance(0.5) {
+				if r.Chance(0.5) || guards {
 					split = 1
 				}
 				cl.Ops = append(cl.Ops, world.Op{K: "batch", Val: strings.Join(parts, ";"), Limit: split})
@@ -118,7 +133,7 @@ func genC11(r *rt.Rand, tier string, idx int) *world.Scenario {
 					cl.Ops = append(cl.Ops, world.Op{K: "next", W: open[r.Intn(len(open))], Limit: int64(1 + r.Intn(4))})
 				}
 			case 5:
-				if len(open) > 0 {
+				if len(open) > 0 && !guards {
 					cl.Ops = append(cl.Ops, world.Op{K: "delcur", W: open[r.Intn(len(open))]})
 				}
 			case 6:
